@@ -294,15 +294,23 @@ def gen_problem(rng, opts=None):
     # ---- data
     data = []
     data.append([T("mode")] + [T(p) for p in particles])
+    mat_zaids = {}
+    mat_laws = {}
     for m in mat_nums:
         card = [T("m%d" % m)]
+        mat_zaids[m] = []
         for _ in range(rng.randint(1, 4)):
             z = rng.choice([1001, 8016, 92235, 92238, 6000, 26056, 40090, 13027])
             lib = rng.choice([".80c", ".70c", ".00c", ".710nc"]) if not o.get("nolib") else rng.choice(["", ".80c"])
             card += [T("%d%s" % (z, lib)), T(fmt_real(rng, positive=True, style=rng.choice(["fixed", "sci", "fortran", "int"])))]
+            mat_zaids[m].append("%d%s" % (z, lib))
         data.append(card)
         if rng.random() < 0.2:
             data.append([T("mt%d" % m), T(rng.choice(["lwtr.10t", "grph.20t", "poly.01t"]))])
+            mat_laws[m] = data[-1][1][1]
+    # (meta only: no random draw, the generated problems are unchanged)
+    P["meta"]["material_zaids"] = mat_zaids
+    P["meta"]["material_laws"] = mat_laws
     for t in tr_nums:
         card = [T(("*" if rng.random() < 0.2 else "") + "tr%d" % t)]
         n = rng.choice([3, 3, 12])
